@@ -175,6 +175,19 @@ def judge_fault(rec, op, poslab, k, text, zero_tick, truth):
                 rec.violation("wrong-error", f"'B 0' at tick {zero_tick}: timestamp_at_tick({q}) raised {harness.exc_str(e)}, not ValueError", case,
                               "zero-tempo-wrong-exception")
                 return
+        if (len(text) + k) % 3 == 0:
+            # the same refusals for every thread: the map is asked by four threads at once about ticks it can time (before the zero
+            # tempo) and ticks it must refuse (under the zero tempo, negative) - nobody gets a time for a refused tick
+            qs = sorted({0, max(0, zero_tick - 1), zero_tick // 2}) + [zero_tick, zero_tick + 1, zero_tick + 10**6, -1, -7]
+            calls = [lambda q=q: be.timestamp_at_tick_no_optimize_return(q) for q in qs] + [lambda q=q: be.timestamp_at_tick(q) for q in qs] + \
+                    [lambda q=q: be.timestamp_at_tick(q, start_iteration_index=len(be) - 1) for q in qs[-5:]]
+            rec.ev(len(calls))
+            bad = harness.shared_use(rec, calls, len(text), rounds=3, plain_rounds=10)
+            if bad:
+                rec.violation("zero-tempo-query-returns", f"'B 0' at tick {zero_tick}, the returned chart's tempo map asked by 4 threads at once (ticks {qs}): {bad}",
+                              dict(case, shared=True), "untrusted-tick-answered-when-map-is-shared-by-threads")
+                return
+            rec.cls("zero_tempo_map_shared_by_4_threads")
         rec.cls("zero_last:no_governed_events:parsed_and_queries_raise")
     else:
         if not isinstance(out.exc, ValueError):
@@ -390,4 +403,8 @@ def replay(case, rec):
             negative_queries(rec, out.chart, case["text"])
             negative_rate_bounds(rec, out.chart, case["text"])
         return
-    judge_fault(rec, case["op"], "replay", case["k"], case["text"], case["zero_tick"], {"tracks": {}})
+    for _ in range(6 if case.get("shared") else 1):
+        judge_fault(rec, case["op"], "replay", case["k"] if not case.get("shared") else case["k"] + (-(len(case["text"]) + case["k"])) % 3,
+                    case["text"], case["zero_tick"], {"tracks": {}})
+        if rec.violations:
+            break
